@@ -15,6 +15,8 @@ DRIVES = ['cpppo.server.enip.ucmm.UCMM.request (route_path acceptance assertion,
 
 
 def seg(p, l, adr):
+    if adr == 'str':
+        return {'port': p, 'link': str(l % 10)}           # an ADDRESS-kind link that spells a number: differs in link kind from numeric l
     return {'port': p, 'link': ('10.0.0.%d' % (l % 4)) if adr else l}
 
 
@@ -69,9 +71,10 @@ REQS = {
     'one': ('[seg(rp, rl, False)]', ['rp', 'rl'], ['1 <= rp <= 0xFFFF and 0 <= rl <= 255']),
     'oneadr': ('[seg(rp, rl, True)]', ['rp', 'rl'], ['1 <= rp <= 0xFFFF and 0 <= rl <= 255']),
     'two': ('[seg(rp, rl, False), seg(rq, rm, False)]', ['rp', 'rl', 'rq', 'rm'], ['1 <= rp <= 0xFFFF and 0 <= rl <= 255 and 1 <= rq <= 0xFFFF and 0 <= rm <= 255']),
+    'onestr': ("[seg(rp, rl, 'str')]", ['rp', 'rl'], ['1 <= rp <= 0xFFFF and 0 <= rl <= 9']),
 }
 QUICK = {('none', 'one', 'write'), ('simple', 'absent', 'read'), ('simple', 'empty', 'write'), ('simple', 'one', 'write'), ('one', 'one', 'write'),
-         ('one', 'absent', 'read'), ('one', 'two', 'gaa'), ('oneadr', 'oneadr', 'write'), ('one', 'oneadr', 'read'), ('two', 'two', 'write')}
+         ('one', 'absent', 'read'), ('one', 'two', 'gaa'), ('oneadr', 'oneadr', 'write'), ('one', 'oneadr', 'read'), ('two', 'two', 'write'), ('one', 'onestr', 'write')}
 for cn, (cexpr, cparams, cpre) in CONFIGS.items():
     for rn, (rexpr, rparams, rpre) in REQS.items():
         for service in ('read', 'write', 'gaa'):
